@@ -707,6 +707,14 @@ func makeJsBundleCase(bg *bundleGen, r *RNG, hub bool) (*jsBundleCase, error) {
 
 // hand-written corners: shapes the random generator does not reach.
 var jsHandSources = []string{
+	// shapes that must either be rejected by the compiler or yield JavaScript that parses (they used to compile into broken files)
+	"{namespace n}\n/** @param a */\n{template .t}{if $a == 1}A{else}B{else}C{/if}{/template}\n/** */\n{template .other}x{/template}\n",
+	"{namespace n}\n/** @param a */\n{template .t}{switch $a}{case 1}A{default}B{default}C{/switch}{/template}\n",
+	"{namespace n}\n/** @param a */\n{template .t}{$a.}{/template}\n",
+	"{namespace n}\n/** @param a */\n{template .t}{$a?.}{$a.\u0663}{/template}\n",
+	"{namespace n}\n/** */\n{template .}x{/template}\n",
+	"{namespace ns.}\n/** */\n{template .t}x{/template}\n",
+	"{namespace n}\n/** @param a */\n{template .t}{length(5)}{length(-5)}{strContains(5, 'a')}{length(not $a)}{-isNonnull($a)}{/template}\n",
 	"{namespace a}\n{template .t}\n{@param x: ?}\nA{@param y: ?}{$x}{$y}\n{/template}\n", // header param after content: Write fails
 	"{namespace a.b.c.d}\n/** @param x */\n{template .t}{foreach $x in $x}{$x}{/foreach}{for $x in range($x)}{$x}{/for}{/template}\n",
 	"{namespace n}\n/** @param? a */\n{template .t}{for $i in range(1, $a ?: 3, 2)}{isFirst($i) ? 'f' : ''}{isLast($i)}{index($i)}{/for}{isFirst($a)}{/template}\n",
